@@ -321,7 +321,7 @@ def run(tier, seed, t0):
     acc = runner.Acc()
     for a in accs:
         acc.merge(a)
-    sanit.run_pass(acc, PROP, tier, seed, quick={"asan": 160}, thorough={"asan": 2400, "memcheck": 480, "miri": 256})
+    sanit.run_pass(acc, PROP, tier, seed, quick={"asan": 160}, thorough={"asan": 2400, "memcheck": 320, "miri": 128})
     return runner.finish(
         PROP, tier, seed, "exploration", acc, t0,
         rule="objects: every 1-layer chain over names {a,b} x %d member kinds (C02 kinds + lazily failing, hidden failing, "
